@@ -122,17 +122,26 @@ func (df *DictionaryFilter) extractElements(serializedArray []byte, values [][]b
 	}
 
 	if df.valueType == pbv1.ValueTypeStrArr {
-		// For each query value, check if it exists in the array
-		// UnmarshalVarArray modifies the source in-place for decoding
-		// This approach has zero allocations and early-exits on match
+		// For each query value, check if it exists in the array.
+		// UnmarshalVarArray decodes an escaped entry in place, which would corrupt the
+		// stored dictionary value for the next query value and for every later lookup.
+		// Decode a scratch copy whenever the array carries an escape; escape-free arrays
+		// are never written to and keep the zero-allocation path.
+		hasEscape := bytes.IndexByte(serializedArray, encoding.Escape) >= 0
+		var scratch []byte
 		for _, v := range values {
 			found := false
-			for idx := 0; idx < len(serializedArray); {
-				end, next, err := encoding.UnmarshalVarArray(serializedArray, idx)
+			buf := serializedArray
+			if hasEscape {
+				scratch = append(scratch[:0], serializedArray...)
+				buf = scratch
+			}
+			for idx := 0; idx < len(buf); {
+				end, next, err := encoding.UnmarshalVarArray(buf, idx)
 				if err != nil {
 					return false
 				}
-				if bytes.Equal(v, serializedArray[idx:end]) {
+				if bytes.Equal(v, buf[idx:end]) {
 					found = true
 					break
 				}
